@@ -24,7 +24,7 @@ def collect(rep, rng, n_cases, n_auto):
         b += 1
         rec, traj, structure, kw = ad.make_case(rng, b, fam, orient, mode)
         try:
-            rec, _ = ad.run_case(rec, traj, structure, kw)
+            rec, _ = ad.run_case(rec, traj, structure, kw, rng=rng)
         except ValueError as e:
             if 'need at least one array' in str(e):
                 rep.extra['skipped_no_change'] = rep.extra.get('skipped_no_change', 0) + 1
